@@ -19,11 +19,20 @@ PROVED = [
     '[P] liars_accept + is_prime_verdict: the verdict on odd n > 2 is true iff the 20 bases drawn are all strong liars; '
     'a false verdict stops at the first non-liar; drawn_range: every base drawn is in [1, n)',
     '[B] liar_bound_small: for every odd composite n < 2^10 the strong liars in [1, n) number <= (n-1)/4 (vm_compute enumeration)',
+    '[P] rabin_monier: for EVERY odd composite n > 9 the strong liars in [1, n) (textbook strong_liar, n - 1 = d 2^c from the model\'s decomposition) '
+    'number <= (n-1)/4; rabin_monier_phi: they are <= 1/4 of the phi(n) residues in [1, n) prime to n; liar_bound: <= (n-1)/4 for every odd composite n > 2 '
+    '(n = 9 by the enumeration). Proof in MathComp (coq/Refine/RabinMonierGroup.v, RabinMonierCases.v, RabinMonierNat.v) on {unit \'Z_n}: the liars lie in '
+    'the subgroup {u : u^m = +-1}, m = d 2^J with J the largest index at which some unit reaches -1; Chinese remainders give index >= 2 for each further '
+    'coprime factor of n (three coprime factors: index >= 4); a square factor p^2 | n gives index >= p^(k-1) (the units killed by 2m | n-1 form a p\'-group); '
+    'n = p q: the cyclic group (Z/q)^* yields a unit with u^(n-1) <> 1; transfer to Z and to mr_round in RabinMonierZ.v',
+    '[P] liar_fraction: for every odd composite n > 2, of the (n-1)^20 sequences of 20 bases in [1, n) at most ((n-1)/4)^20 are accepting '
+    '(4^20 * #acc <= (n-1)^20, acc and all given as duplicate-free lists with their membership characterised), and is_prime n r = Done (true, r\') '
+    'holds exactly when the 20 bases drawn from the stream r form a sequence of acc: the counting form of "error at most 4^-20"',
 ]
 NOT_PROVED = [
-    'Rabin-Monier bound (<= 1/4 of the bases are strong liars) for odd composite n >= 2^10, hence the 4^-20 error bound in general; '
-    'covered only by the seeded runs against the deterministic reference',
-    'uniformity/independence of the bases is a property of the real generator (rand::thread_rng), not of the model: the theorems quantify over all draw streams',
+    'uniformity/independence of the bases is a property of the real generator (rand::thread_rng), not of the model: the theorems quantify over all draw streams; '
+    'liar_fraction is a counting statement over sequences of bases (at most a 4^-20 fraction accept); turning it into a probability needs the 20 bases to be '
+    'independent and uniform on [1, n), which is assumed of the generator, not proved',
     'OutOfFuel: the model gives up after 4096 successive rejected candidates inside one gen_bigint_range call (the real loop is unbounded); '
     'is_prime_complete lists it as the only alternative outcome',
 ]
@@ -32,10 +41,13 @@ CLAIM = dict(
     technique='Coq proof about the Gallina model of is_prime (all n, all draw streams) + extracted-model-vs-implementation correspondence with replayed draws',
     text='The theorems of coq/Props/C13.v hold for all integers n and all draw streams: early returns; one-sided error (a prime is never rejected); '
          'the verdict is false as soon as a drawn base fails the strong-probable-prime condition and true exactly when 20 strong liars are drawn. '
-         'The per-round error bound 1/4 is proved by enumeration for odd composites below 2^10. The model is tied to /repo by replaying the bytes the '
+         'The per-round error bound 1/4 (Rabin-Monier: at most (n-1)/4, indeed phi(n)/4, strong liars in [1, n)) is proved for every odd composite n, and with it the '
+         'counting form of the 4^-20 bound: at most ((n-1)/4)^20 of the (n-1)^20 sequences of 20 bases make the model accept a composite (liar_fraction). '
+         'The model is tied to /repo by replaying the bytes the '
          'hooked generator handed out (verdict equal, model consumes exactly the logged bytes); under seeded draws the verdict is also compared '
          'with a deterministic reference (deterministic Miller-Rabin below 3.3e24, Pocklington-certified primes and products by construction above).',
-    note='Rabin-Monier in general is not proved, so "composite -> false except with probability 4^-20" rests, above 2^10, on the explored seeded runs. '
+    note='"composite -> false except with probability 4^-20" is proved as a count of accepting base sequences; the passage to a probability assumes the generator draws '
+         'the 20 bases independently and uniformly from [1, n) (not a property of the model). '
          'Under scripted adversarial draws (bases 1, n-1, known liars) composites are accepted by code and model alike; only model == implementation is checked there. '
          'BigInt::modpow and num-bigint gen_bigint_range are modelled (binary exponentiation; rejection sampling over little-endian u32 digits) and tied by correspondence.',
     ref='DESIGN.md section 4, C13')
